@@ -568,9 +568,10 @@ pub fn spec() -> PropertySpec {
         check_ml,
     ));
     units.push(PropUnit::new("C03:skzg:catalogue", 200, 1600, 2, |_| sk_case().boxed(), check_sk));
+    units.extend(super::c05::correlated_units("C03"));
     PropertySpec {
         id: "C03",
-        rule: "Each case is an honest accepted transcript plus one attack: a program of 1-3 scheme-specific proof mutations (component replaced by a random valid element, IPA rounds added/removed/reordered, PST13/multilinear witness lists reshaped, Hyrax z stretched / proof vector reshaped / com_eval re-opened to a false value, Ligero-Brakedown v stretched-interleaved-shortened-shifted, well-formedness vector removed/stretched/shifted, columns and paths repeated/rotated/truncated/tampered, leaf indices rewritten - applied through mirror structs and re-serialised), or the library prover run on (q, state_q) against commitment(p), or a proof replayed from another point / another committed polynomial, or a reshaped batch proof list; always paired with a claimed value different from the true evaluation (when a mutation changes the opened vector v the claim is the value that vector implies). Oracle: not accepted. Vector mutations of the code-based schemes that keep honest columns are asserted only if agreement^t <= 2^-40 (toy_soundness_not_asserted otherwise). Non-trivial: the mutated proof is rejected by an algebraic check (Ok(false)) rather than a shape check, or would still be accepted for the true value; the other modes are always non-trivial.",
+        rule: "(Also: batches whose claims or accumulated proof elements carry correlated errors - cancelling inside a label, across labels, weighted by the replayed opening challenges, +D/-D on two proofs - must not be accepted; the batch scenarios of C05 restricted to false acceptances, for Marlin, Sonic, IPA, PST13, KZG10::batch_check and streaming verify_multi_points.) Each case is an honest accepted transcript plus one attack: a program of 1-3 scheme-specific proof mutations (component replaced by a random valid element, IPA rounds added/removed/reordered, PST13/multilinear witness lists reshaped, Hyrax z stretched / proof vector reshaped / com_eval re-opened to a false value, Ligero-Brakedown v stretched-interleaved-shortened-shifted, well-formedness vector removed/stretched/shifted, columns and paths repeated/rotated/truncated/tampered, leaf indices rewritten - applied through mirror structs and re-serialised), or the library prover run on (q, state_q) against commitment(p), or a proof replayed from another point / another committed polynomial, or a reshaped batch proof list; always paired with a claimed value different from the true evaluation (when a mutation changes the opened vector v the claim is the value that vector implies). Oracle: not accepted. Vector mutations of the code-based schemes that keep honest columns are asserted only if agreement^t <= 2^-40 (toy_soundness_not_asserted otherwise). Non-trivial: the mutated proof is rejected by an algebraic check (Ok(false)) rather than a shape check, or would still be accepted for the true value; the other modes are always non-trivial.",
         assumptions: vec![
             "attacks are those of the catalogue and programs over it, not arbitrary adversaries",
             "claimed values are false by construction",
